@@ -383,7 +383,28 @@ impl Reference {
                 continue;
             }
             match self.expect(name) {
-                Expect::Unjudged => {}
+                // whether it is offered is not judged - but if it is, then not under an address or
+                // port that the object does not report (a name looked up, a number read in another
+                // notation, a port made up)
+                Expect::Unjudged => {
+                    if let (Some(s), Some(obj)) = (seen.first(), self.current.get(name)) {
+                        let reported_ip = obj.pointer("/status/address").and_then(|v| v.as_str()).and_then(|a| a.parse::<IpAddr>().ok());
+                        let reported_port = first_port(obj);
+                        if reported_ip != Some(s.address.ip()) || reported_port != Some(s.address.port()) {
+                            out.push(Mismatch {
+                                name: name.to_string(),
+                                kind: "invented-address",
+                                fields: vec![],
+                                detail: format!(
+                                    "offered at {} although the object reports address {:?} and first port {:?}",
+                                    s.address,
+                                    obj.pointer("/status/address").and_then(|v| v.as_str()).unwrap_or(""),
+                                    reported_port
+                                ),
+                            });
+                        }
+                    }
+                }
                 Expect::Absent => {
                     if !seen.is_empty() {
                         out.push(Mismatch {
